@@ -177,7 +177,13 @@ func (vc *VC) execCall(fr *Frame, c *ssa.CallCommon, site ssa.Instruction, pos t
 // atCallAsserts checks the `atcall` assertions of the current function that
 // name the callee of c.
 func (vc *VC) atCallAsserts(fr *Frame, c *ssa.CallCommon, args []*Val, site ssa.Instruction, pos token.Pos) {
-	if fr.spec == nil || len(fr.spec.AtCalls) == 0 || site == nil || vc.discovery > 0 {
+	specFr := fr
+	if (fr.spec == nil || len(fr.spec.AtCalls) == 0) && vc.top != nil && fr != vc.top && fr.fn.Parent() != nil {
+		// a call inside a closure of the function under verification (run
+		// inline, e.g. deferred): the function's atcall clauses apply
+		specFr = vc.top
+	}
+	if specFr.spec == nil || len(specFr.spec.AtCalls) == 0 || site == nil {
 		return
 	}
 	var name string
@@ -188,12 +194,30 @@ func (vc *VC) atCallAsserts(fr *Frame, c *ssa.CallCommon, args []*Val, site ssa.
 	} else {
 		return
 	}
-	for i, ac := range fr.spec.AtCalls {
+	for i, ac := range specFr.spec.AtCalls {
 		if !(name == ac.Callee || strings.HasSuffix(name, "."+ac.Callee) || strings.HasSuffix(name, ")."+ac.Callee) || strings.HasSuffix(name, "/"+ac.Callee)) {
 			continue
 		}
 		names := map[string]*Val{}
 		vc.localNamesAt(fr, site, names)
+		if specFr != fr {
+			// the closure's own parameters and captured variables come first
+			for k, v := range fr.names {
+				if _, ok := names[k]; !ok {
+					names[k] = v
+				}
+			}
+		}
+		if specFr != fr && specFr.curBlock != nil && len(specFr.curBlock.Instrs) > 0 {
+			// locals of the enclosing function, as they stand where the closure runs
+			outer := map[string]*Val{}
+			vc.localNamesAt(specFr, specFr.curBlock.Instrs[len(specFr.curBlock.Instrs)-1], outer)
+			for k, v := range outer {
+				if _, ok := names[k]; !ok {
+					names[k] = v
+				}
+			}
+		}
 		// the call's operands: arg0 is the receiver of a method call
 		k := 0
 		if c.IsInvoke() {
@@ -205,7 +229,25 @@ func (vc *VC) atCallAsserts(fr *Frame, c *ssa.CallCommon, args []*Val, site ssa.
 				names[fmt.Sprintf("arg%d", i+k)] = a
 			}
 		}
-		env := vc.specEnv(fr, names)
+		// locals that are not defined on this path stand for arbitrary values
+		for name, vals := range specFr.dbg {
+			if _, ok := names[name]; ok || len(vals) == 0 {
+				continue
+			}
+			if _, ok := specFr.names[name]; ok {
+				continue
+			}
+			t := vals[0].Type()
+			names[name] = &Val{T: vc.fresh("undef_"+sanitize(name), vc.sortOf(t)), Ty: t}
+		}
+		env := vc.specEnv(specFr, names)
+		if ac.Set != nil {
+			vc.applyGhostSets(&FuncSpec{GhostSets: []*GhostSet{ac.Set}}, env, pos)
+			continue
+		}
+		if vc.discovery > 0 {
+			continue
+		}
 		for _, cj := range conjuncts(ac.Clause) {
 			t, ok := vc.evalBool(cj, env)
 			if !ok {
@@ -213,7 +255,7 @@ func (vc *VC) atCallAsserts(fr *Frame, c *ssa.CallCommon, args []*Val, site ssa.
 			}
 			if ac.Assume {
 				vc.assume(t)
-				vc.used.Assumes["assumed before the call of "+ac.Callee+" in "+fr.fn.String()+": "+cj.Src] = true
+				vc.used.Assumes["assumed before the call of "+ac.Callee+" in "+specFr.fn.String()+": "+cj.Src] = true
 				continue
 			}
 			vc.oblige("atcall", vc.clauseLabel("atcall:"+ac.Callee, cj, i), t, pos, "holds right before the call of "+ac.Callee+": "+cj.Src)
